@@ -271,6 +271,12 @@ def run(ctx):
     ctx.oblige("c18-oracle-agrees-with-scenario-construction", not intent_bad,
                "; ".join("%s %s/%s/%s seed %d: %s" % (r["tool"], r["cls"], r["keyform"], r["fmt"], r["scenario"]["seed"], m)
                          for r, m in intent_bad[:6]))
+    for r, m in intent_bad:
+        # the scenario was CONSTRUCTED to fail (malformed / edited / missing input ...) and the front end reports success
+        if r["intent"] in ("fail", "SVE", "other") and r["status"] == 0 and reported < 12:
+            ctx.violation("%s exited 0 on an input constructed to fail (%s) [%s/%s/%s]" % (
+                L.SCRIPT[r["tool"]], m, r["cls"], r["keyform"], r["fmt"]), replay_obj(r))
+            reported += 1
     broken = ctx.broken_obligations()
     if broken and not reported:
         ctx.violation("broken obligation(s): " + "; ".join(n for n, _ in broken),
